@@ -7,6 +7,8 @@
                    what can be restored).
  R3 fix-points   : a field that an element exports and that design increments in place must be guarded by a test that
                    makes the increment a fix-point (otherwise export -> reload -> redesign drifts).
+ R5 hand-off     : the operating point handed from one amplifier to the next and stored on it does not depend on whether a
+                   value was optimised in this run or read back from an export (shares C09-R3/R4).
  R4 key agreement: every key an element's to_json emits under params / operational is a key its parameter class reads.
 """
 import ast
